@@ -345,3 +345,102 @@ Example ex_release :
   released (call all_fixed (compile all_fixed 2 [mkfp false true [true; false; true]; mkfp true true [true]])
                  (mksc false (AOk false) false (TRespond None RespRead))) = true.
 Proof. vm_compute. reflexivity. Qed.
+
+(* ====================== a failing source surfaces when the body is consumed ====================== *)
+Definition is_fail (op : wop) : bool := match op with OSrc false _ => true | _ => false end.
+Definition has_fail (ops : list wop) : bool := existsb is_fail ops.
+
+Lemma run_err_done : forall ro ops sk df cl dl, w_done (run_writer ro ops sk df true cl dl) = true.
+Proof.
+  induction ops as [|op r IH]; intros sk df cl dl; [reflexivity|].
+  cbn [run_writer]. destruct sk.
+  - destruct op; apply IH.
+  - destruct op as [h|ok h| |].
+    + cbn [orb]. destruct h; try apply IH; reflexivity.
+    + destruct ok; [apply IH|]. destruct h; try apply IH; reflexivity.
+    + apply IH.
+    + apply IH.
+Qed.
+
+(* with the reader present and no error so far, the goroutine either returns — with the error on the pipe if
+   some source Read of its program fails — or waits at a write, no error raised, the failing Read still ahead *)
+Lemma run_open_cases : forall ops df cl dl,
+  let st := run_writer true ops false df false cl dl in
+  (w_done st = true /\ (has_fail ops = true -> w_pipe_err st = true)) \/
+  (w_done st = false /\ w_pipe_err st = false /\ (exists h r, w_ops st = OWrite h :: r) /\
+   length (w_ops st) <= length ops /\ (has_fail ops = true -> has_fail (w_ops st) = true)).
+Proof.
+  induction ops as [|op r IH]; intros df cl dl.
+  - left. split; [reflexivity | discriminate].
+  - cbn [run_writer]. destruct op as [h|ok h| |].
+    + cbn [orb negb]. right. cbn. repeat split; [now exists h, r | lia | auto].
+    + destruct ok.
+      * destruct (IH df cl dl) as [[H1 H2]|[H1 [H2 [H3 [H4 H5]]]]]; [left|right]; cbn [has_fail existsb is_fail orb] in *.
+        -- split; assumption.
+        -- repeat split; try assumption. cbn [length]. lia.
+      * left. destruct h.
+        -- split; reflexivity.
+        -- split; [apply run_err_done | intros _; apply run_sticky_err].
+        -- split; [apply run_err_done | intros _; apply run_sticky_err].
+    + destruct (IH true cl dl) as [[H1 H2]|[H1 [H2 [H3 [H4 H5]]]]]; [left|right]; cbn [has_fail existsb is_fail orb] in *.
+      * split; assumption.
+      * repeat split; try assumption. cbn [length]. lia.
+    + destruct (IH df cl dl) as [[H1 H2]|[H1 [H2 [H3 [H4 H5]]]]]; [left|right]; cbn [has_fail existsb is_fail orb] in *.
+      * split; assumption.
+      * repeat split; try assumption. cbn [length]. lia.
+Qed.
+
+Lemma pull_all_reaches_error : forall fuel st,
+  w_done st = false -> w_pipe_err st = false -> (exists h r, w_ops st = OWrite h :: r) ->
+  has_fail (w_ops st) = true -> length (w_ops st) < fuel ->
+  fst (pull_all fuel st) = PErr.
+Proof.
+  induction fuel as [|f IH]; intros st Hd He [h [r Hops]] Hf Hlen; [lia|].
+  cbn [pull_all]. unfold pull. rewrite Hd, Hops.
+  rewrite Hops in Hf, Hlen. cbn [has_fail existsb is_fail orb] in Hf. cbn [length] in Hlen.
+  rewrite He.
+  destruct (run_open_cases r (w_defer st) (w_file_closes st) (S (w_delivered st))) as [[H1 H2]|[H1 [H2 [H3 [H4 H5]]]]].
+  - (* the goroutine returned with the error: the next read reports it *)
+    set (st' := run_writer true r false (w_defer st) false (w_file_closes st) (S (w_delivered st))) in *.
+    destruct f as [|f']; [lia|]. cbn [pull_all]. unfold pull. rewrite H1, (H2 Hf). reflexivity.
+  - set (st' := run_writer true r false (w_defer st) false (w_file_closes st) (S (w_delivered st))) in *.
+    apply IH; try assumption; [now apply H5 | lia].
+Qed.
+
+(* the body read to its end while some source Read of the program fails: the reader is handed the error *)
+Lemma read_to_end_sees_failure prog :
+  has_fail prog = true -> fst (read_to_end (start prog)) = PErr.
+Proof.
+  intros Hf. unfold read_to_end, start.
+  destruct (run_open_cases prog false 0 0) as [[H1 H2]|[H1 [H2 [H3 [H4 H5]]]]].
+  - set (st := run_writer true prog false false false 0 0) in *.
+    cbn [pull_all]. unfold pull. rewrite H1, (H2 Hf). reflexivity.
+  - set (st := run_writer true prog false false false 0 0) in *.
+    apply pull_all_reaches_error; try assumption; [now apply H5 | lia].
+Qed.
+
+(* a failing upload source is never reported as a success when the request body is consumed to its end
+   (by GetBody, or by a transport that reads everything before it answers) *)
+Lemma upload_failure_is_error fx prog sc :
+  has_fail prog = true -> sc_param_err sc = false ->
+  (match sc_auth sc with AOk true | AFail true => True | _ => exists r, sc_transport sc = TRespond None r end) ->
+  c_result (call fx prog sc) = RFail.
+Proof.
+  intros Hf Hp Hc. unfold call. rewrite Hp.
+  assert (Hend := read_to_end_sees_failure prog Hf).
+  destruct (sc_auth sc) as [|[|]|[|]]; cbn [andb negb].
+  - destruct Hc as [r Hr]. destruct (sc_late_err sc); [unfold fail_late; destruct (fx_close_on_late_error fx); reflexivity|].
+    cbn. rewrite Hr. unfold transport_reads. destruct (read_to_end (start prog)) as [r2 w2]. cbn in Hend. subst r2. reflexivity.
+  - destruct (read_to_end (start prog)) as [r1 w1]. cbn in Hend. subst r1. cbn.
+    unfold fail_late; destruct (fx_close_on_late_error fx); reflexivity.
+  - destruct Hc as [r Hr]. destruct (sc_late_err sc); [unfold fail_late; destruct (fx_close_on_late_error fx); reflexivity|].
+    cbn. rewrite Hr. unfold transport_reads. destruct (read_to_end (start prog)) as [r2 w2]. cbn in Hend. subst r2. reflexivity.
+  - destruct (read_to_end (start prog)) as [r1 w1]. cbn in Hend. subst r1. cbn.
+    unfold fail_late; destruct (fx_close_on_late_error fx); reflexivity.
+  - unfold fail_late; destruct (fx_close_on_late_error fx); reflexivity.
+Qed.
+
+Example ex_upload_failure :
+  let prog := compile all_fixed 1 [mkfp false true [true; false; true]] in
+  has_fail prog = true /\ c_result (call all_fixed prog (mksc false (AOk false) false (TRespond None RespRead))) = RFail.
+Proof. vm_compute. split; reflexivity. Qed.
